@@ -41,6 +41,16 @@ def choose_subset(topo, rng, case):
             return None
         c = inner[int(rng.integers(len(inner)))]
         return [c] + sorted(adj[c])
+    if case.get("around_junction"):
+        # the three cells around one junction: three unknowns, one junction (two equations)
+        inc = {}
+        for c, cyc in enumerate(topo.cells):
+            for j in cyc:
+                inc.setdefault(j, []).append(c)
+        js = sorted(j for j, cs in inc.items() if len(cs) == 3)
+        if not js:
+            return None
+        return sorted(inc[js[int(rng.integers(len(js)))]])
     if case.get("subset"):
         return gen.connected_subsets(topo, rng, max(3, int(round(topo.ncells() * case["subset"]))))
     return None
@@ -67,7 +77,7 @@ def build_static(case):
     if topo is None:
         return None
     sub = choose_subset(topo, rng, case)
-    if sub is None and case.get("flower"):
+    if sub is None and (case.get("flower") or case.get("around_junction")):
         return None
     mob = gen.Mobius.random(rng, topo, strength=case.get("strength", 1.0)) if case.get("mobius") else None
     angle = case.get("angle", 0.0)
